@@ -1753,6 +1753,28 @@ private:
    //----------------------------- BOOSTED SOLVER -----------------------------
    // multiprecision type used for the boosted solver
    using BP = number<mpfr_float_backend<0>, et_off>;
+
+   /// number of decimal digits used for new numbers of the boosted type BP in the calling thread; since Boost 1.76
+   /// BP::default_precision() refers to a process-wide default that is shared by all threads (and hence by all solver
+   /// objects running concurrently), whereas the precision of the calling thread is thread_default_precision()
+   static unsigned _boostedPrecisionDigits()
+   {
+#if BOOST_VERSION >= 107600
+      return BP::thread_default_precision();
+#else
+      return BP::default_precision();
+#endif
+   }
+
+   /// sets the number of decimal digits used for new numbers of the boosted type BP in the calling thread
+   static void _setBoostedPrecisionDigits(unsigned digits10)
+   {
+#if BOOST_VERSION >= 107600
+      BP::thread_default_precision(digits10);
+#else
+      BP::default_precision(digits10);
+#endif
+   }
 #else
 #ifdef SOPLEX_WITH_GMP
    using BP = number<gmp_float<50>, et_off>;
